@@ -1,7 +1,534 @@
 package main
 
-// Counterexample replay on the real code (see DESIGN §2.7).
+// Counterexample replay on the real code (DESIGN §2.7).
+//
+// The solver's model of a failed obligation is turned into concrete arguments for the function under
+// contract; an in-package Go test (injected with `go test -overlay`, nothing is written to the repository)
+// calls the real function on them and prints a canonical dump of everything observable afterwards
+// (results, receiver and arguments, panic value). The same test is run against the reference commit
+// recorded in /verif/reference_commit -- the tree on which this obligation is discharged for ALL
+// inputs, i.e. on which the function provably meets its contract. The contract determines the outcome,
+// so a different outcome on the current tree for that input is a demonstrated violation.
+
+import (
+	"encoding/json"
+	"fmt"
+	"go/types"
+	"math/big"
+	"os"
+	"os/exec"
+	"path/filepath"
+	"sort"
+	"strconv"
+	"strings"
+)
+
+type reify struct {
+	ex    *Exec
+	model map[string]string
+	pre   []string // statements building the arguments
+	names map[string]string
+	ok    bool
+	why   string
+	ctr   int
+	bases map[string]string // storage base value -> Go variable holding the backing array
+}
+
+func (r *reify) val(t *Term) (string, bool) {
+	v, ok := r.model[t.String()]
+	return v, ok
+}
+
+func parseSMTInt(s string) (int64, bool) {
+	s = strings.TrimSpace(s)
+	neg := false
+	if strings.HasPrefix(s, "(-") {
+		neg = true
+		s = strings.TrimSpace(strings.TrimSuffix(strings.TrimPrefix(s, "(-"), ")"))
+	}
+	n, err := strconv.ParseInt(s, 10, 64)
+	if err != nil {
+		return 0, false
+	}
+	if neg {
+		n = -n
+	}
+	return n, true
+}
+
+func parseSMTReal(s string) (float64, bool) {
+	s = strings.TrimSpace(s)
+	s = strings.ReplaceAll(s, "?", "")
+	neg := false
+	if strings.HasPrefix(s, "(-") {
+		neg = true
+		s = strings.TrimSpace(strings.TrimSuffix(strings.TrimPrefix(s, "(-"), ")"))
+	}
+	var f float64
+	if strings.HasPrefix(s, "(/") {
+		parts := strings.Fields(strings.TrimSuffix(strings.TrimPrefix(s, "(/"), ")"))
+		if len(parts) != 2 {
+			return 0, false
+		}
+		a, ok1 := new(big.Float).SetString(parts[0])
+		b, ok2 := new(big.Float).SetString(parts[1])
+		if !ok1 || !ok2 {
+			return 0, false
+		}
+		q, _ := new(big.Float).Quo(a, b).Float64()
+		f = q
+	} else {
+		x, err := strconv.ParseFloat(s, 64)
+		if err != nil {
+			return 0, false
+		}
+		f = x
+	}
+	if neg {
+		f = -f
+	}
+	return f, true
+}
+
+func (r *reify) fresh(prefix string) string {
+	r.ctr++
+	return fmt.Sprintf("%s%d", prefix, r.ctr)
+}
+
+func (r *reify) intOf(t *Term, def int64) int64 {
+	if v, ok := r.val(t); ok {
+		if n, ok := parseSMTInt(v); ok {
+			return n
+		}
+	}
+	return def
+}
+
+func (r *reify) realOf(t *Term, def float64) float64 {
+	if v, ok := r.val(t); ok {
+		if f, ok := parseSMTReal(v); ok {
+			return f
+		}
+	}
+	return def
+}
+
+func (r *reify) boolOf(t *Term) bool {
+	v, _ := r.val(t)
+	return strings.TrimSpace(v) == "true"
+}
+
+// sliceExpr builds a Go expression for a []float64-like slice header term (elements: model values where
+// available, otherwise distinct defaults).
+func (r *reify) sliceExpr(hdr *Term, elemType string, comp string) string {
+	ln := r.intOf(Acc("slen", hdr), 0)
+	off := r.intOf(Acc("soff", hdr), 0)
+	cp := r.intOf(Acc("scap", hdr), ln)
+	base := r.intOf(Acc("sbase", hdr), 0)
+	if ln < 0 || ln > 4096 || off < 0 || off > 4096 || cp < ln || cp > 8192 {
+		r.ok = false
+		r.why = "slice header outside replayable range"
+		return "nil"
+	}
+	if base == 0 && ln == 0 {
+		return "nil"
+	}
+	key := fmt.Sprintf("%s/%d", elemType, base)
+	arr, ok := r.bases[key]
+	need := off + cp
+	if !ok {
+		arr = r.fresh("store")
+		r.bases[key] = arr
+		r.pre = append(r.pre, fmt.Sprintf("%s := make([]%s, %d)", arr, elemType, need+8))
+		if elemType == "float64" || elemType == "float32" || strings.HasPrefix(elemType, "int") {
+			r.pre = append(r.pre, fmt.Sprintf("for k := range %s { %s[k] = %s(k%%7 + 1) }", arr, arr, elemType))
+		}
+	}
+	// model values for the first elements
+	if h, ok := r.ex.initHeap[comp]; ok {
+		for k := int64(0); k < ln && k < 8; k++ {
+			et := Select(Select(h, Acc("sbase", hdr)), Add(Acc("soff", hdr), IntLit(k)))
+			if v, ok := r.val(et); ok {
+				if f, ok := parseSMTReal(v); ok {
+					r.pre = append(r.pre, fmt.Sprintf("if %d < len(%s) { %s[%d] = %s(%v) }", off+k, arr, arr, off+k, elemType, f))
+				}
+			}
+		}
+	}
+	return fmt.Sprintf("%s[%d:%d:%d]", arr, off, off+ln, off+cp)
+}
+
+// arg builds the Go expression for one parameter.
+func (r *reify) arg(name string, t *Term, typ types.Type) string {
+	V := r.ex.V
+	switch u := typ.Underlying().(type) {
+	case *types.Basic:
+		switch {
+		case u.Info()&types.IsBoolean != 0:
+			return fmt.Sprint(r.boolOf(t))
+		case u.Info()&types.IsInteger != 0:
+			return fmt.Sprintf("%s(%d)", V.typeName(typ), r.intOf(t, 0))
+		case u.Info()&types.IsFloat != 0:
+			return fmt.Sprintf("%s(%v)", V.typeName(typ), r.realOf(t, 0.5))
+		}
+	case *types.Slice:
+		et := V.typeName(u.Elem())
+		comp, _ := V.elemComp(u.Elem())
+		e := r.sliceExpr(t, et, comp)
+		if _, named := typ.(*types.Named); named {
+			return fmt.Sprintf("%s(%s)", V.typeName(typ), e)
+		}
+		return e
+	case *types.Pointer:
+		if isStruct(u.Elem()) {
+			return r.structPtr(t, u.Elem())
+		}
+	case *types.Struct:
+		si := V.structOf(typ)
+		if si.st.NumFields() == 1 {
+			if pt, ok := si.st.Field(0).Type().Underlying().(*types.Pointer); ok && !isStruct(pt.Elem()) {
+				// Float64{ptr}: a cell holding the model value
+				v := r.fresh("cell")
+				comp, _ := V.elemComp(pt.Elem())
+				f := 0.5
+				if h, ok := r.ex.initHeap[comp]; ok {
+					pp := Acc("fld:"+si.name+"."+si.st.Field(0).Name(), t)
+					f = r.realOf(Select(Select(h, Acc("pbase", pp)), Acc("pidx", pp)), 0.5)
+				}
+				r.pre = append(r.pre, fmt.Sprintf("%s := %s(%v)", v, V.typeName(pt.Elem()), f))
+				return fmt.Sprintf("%s{&%s}", V.typeName(typ), v)
+			}
+		}
+	case *types.Interface:
+		return r.iface(name, t, typ)
+	}
+	r.ok = false
+	r.why = "parameter " + name + " of type " + typ.String() + " is not replayable"
+	return "nil"
+}
+
+func (r *reify) structPtr(ref *Term, st types.Type) string {
+	V := r.ex.V
+	key := "ref/" + fmt.Sprint(r.intOf(ref, -1))
+	if v, ok := r.names[key]; ok {
+		return v // aliasing: same reference, same object
+	}
+	if r.intOf(ref, -1) == 0 {
+		return "nil"
+	}
+	si := V.structOf(st)
+	name := V.typeName(st)
+	v := r.fresh("obj")
+	r.names[key] = v
+	if name == "Real64" || name == "Real32" {
+		// magic scalar: value / order / N from the model, derivative slots deterministic
+		val := 0.5
+		n, order := int64(0), int64(0)
+		for i := 0; i < si.st.NumFields(); i++ {
+			comp, _ := V.fieldComp(si, i)
+			h, ok := r.ex.initHeap[comp]
+			if !ok {
+				continue
+			}
+			switch si.st.Field(i).Name() {
+			case "Value":
+				val = r.realOf(Select(h, ref), 0.5)
+			case "N":
+				n = r.intOf(Select(h, ref), 0)
+			case "Order":
+				order = r.intOf(Select(h, ref), 0)
+			}
+		}
+		if n < 0 || n > 6 {
+			n = 2
+		}
+		if order < 0 || order > 2 {
+			order = 2
+		}
+		r.pre = append(r.pre, fmt.Sprintf("%s := New%s(%v)", v, name, val))
+		r.pre = append(r.pre, fmt.Sprintf("%s.Alloc(%d, %d)", v, n, order))
+		r.pre = append(r.pre, fmt.Sprintf("for i := 0; i < %d && %d >= 1; i++ { %s.Derivative[i] = 0.25 + float%s(i)*0.5 + %v }", n, order, v, name[4:], float64(r.ctr)*0.125))
+		r.pre = append(r.pre, fmt.Sprintf("for i := 0; i < %d && %d >= 2; i++ { for j := 0; j < %d; j++ { %s.Hessian[i][j] = 0.125 + float%s(i+j)*0.25 + float%s(i*j)*0.0625 } }", n, order, n, v, name[4:], name[4:]))
+		return v
+	}
+	var fields []string
+	for i := 0; i < si.st.NumFields(); i++ {
+		f := si.st.Field(i)
+		if isStruct(f.Type()) {
+			continue
+		}
+		comp, _ := V.fieldComp(si, i)
+		h, ok := r.ex.initHeap[comp]
+		if !ok {
+			continue
+		}
+		ft := Select(h, ref)
+		switch fu := f.Type().Underlying().(type) {
+		case *types.Basic:
+			switch {
+			case fu.Info()&types.IsBoolean != 0:
+				fields = append(fields, fmt.Sprintf("%s: %v", f.Name(), r.boolOf(ft)))
+			case fu.Info()&types.IsInteger != 0:
+				fields = append(fields, fmt.Sprintf("%s: %d", f.Name(), r.intOf(ft, 0)))
+			case fu.Info()&types.IsFloat != 0:
+				fields = append(fields, fmt.Sprintf("%s: %v", f.Name(), r.realOf(ft, 0.5)))
+			}
+		case *types.Slice:
+			et := V.typeName(fu.Elem())
+			ecomp, _ := V.elemComp(fu.Elem())
+			switch fu.Elem().Underlying().(type) {
+			case *types.Basic:
+				fields = append(fields, fmt.Sprintf("%s: %s", f.Name(), r.sliceExpr(ft, et, ecomp)))
+			default:
+				r.ok = false
+				r.why = "field " + f.Name() + " of " + name + " is not replayable"
+			}
+		case *types.Pointer, *types.Map, *types.Interface:
+			r.ok = false
+			r.why = "field " + f.Name() + " of " + name + " (pointer-linked structure) is not replayable"
+		}
+	}
+	r.pre = append(r.pre, fmt.Sprintf("%s := &%s{%s}", v, name, strings.Join(fields, ", ")))
+	return v
+}
+
+func (r *reify) iface(name string, t *Term, typ types.Type) string {
+	V := r.ex.V
+	if t.Op == "C:nil-iface" {
+		return "nil"
+	}
+	var tns []string
+	for tn := range boxTypes {
+		tns = append(tns, tn)
+	}
+	sort.Strings(tns)
+	for _, tn := range tns {
+		bt := boxTypes[tn]
+		if !r.boolOf(IsBox(tn, t)) {
+			continue
+		}
+		if !types.AssignableTo(bt, typ) {
+			continue
+		}
+		payload := Unbox(tn, V.sortOf(bt), t)
+		return r.arg(name, payload, bt)
+	}
+	// dynamic type unconstrained by the model: a plain constant scalar where that fits
+	if types.AssignableTo(r.lookupType("ConstFloat64"), typ) {
+		return "ConstFloat64(0.75)"
+	}
+	r.ok = false
+	r.why = "interface parameter " + name + " has no replayable dynamic type in the model"
+	return "nil"
+}
+
+func (r *reify) lookupType(n string) types.Type {
+	if obj := r.ex.fn.Pkg.Pkg.Scope().Lookup(n); obj != nil {
+		return obj.Type()
+	}
+	return types.Typ[types.Invalid]
+}
+
+const dumpHelper = `
+func govcDump(sb *strings.Builder, v reflect.Value, depth int, seen map[uintptr]bool) {
+	if depth > 6 { sb.WriteString("…"); return }
+	switch v.Kind() {
+	case reflect.Ptr:
+		if v.IsNil() { sb.WriteString("nil"); return }
+		if seen[v.Pointer()] { sb.WriteString("<cycle>"); return }
+		seen[v.Pointer()] = true
+		sb.WriteString("&"); govcDump(sb, v.Elem(), depth+1, seen)
+	case reflect.Interface:
+		if v.IsNil() { sb.WriteString("nil"); return }
+		sb.WriteString(v.Elem().Type().String()); sb.WriteString(":"); govcDump(sb, v.Elem(), depth+1, seen)
+	case reflect.Struct:
+		sb.WriteString("{")
+		for i := 0; i < v.NumField(); i++ {
+			if v.Type().Field(i).Name == "tmp1" || v.Type().Field(i).Name == "tmp2" { continue }
+			if i > 0 { sb.WriteString(" ") }
+			sb.WriteString(v.Type().Field(i).Name); sb.WriteString(":"); govcDump(sb, v.Field(i), depth+1, seen)
+		}
+		sb.WriteString("}")
+	case reflect.Slice, reflect.Array:
+		if v.Kind() == reflect.Slice && v.IsNil() { sb.WriteString("[]"); return }
+		sb.WriteString("[")
+		for i := 0; i < v.Len() && i < 64; i++ { if i > 0 { sb.WriteString(" ") }; govcDump(sb, v.Index(i), depth+1, seen) }
+		sb.WriteString("]")
+	case reflect.Map:
+		keys := v.MapKeys()
+		sort.Slice(keys, func(i, j int) bool { return fmt.Sprint(keys[i]) < fmt.Sprint(keys[j]) })
+		sb.WriteString("map[")
+		for _, k := range keys { sb.WriteString(fmt.Sprint(k)); sb.WriteString(":"); govcDump(sb, v.MapIndex(k), depth+1, seen); sb.WriteString(" ") }
+		sb.WriteString("]")
+	case reflect.Float32, reflect.Float64:
+		sb.WriteString(strconv.FormatFloat(v.Float(), 'g', 12, 64))
+	case reflect.Int, reflect.Int8, reflect.Int16, reflect.Int32, reflect.Int64:
+		sb.WriteString(strconv.FormatInt(v.Int(), 10))
+	case reflect.Bool:
+		sb.WriteString(strconv.FormatBool(v.Bool()))
+	case reflect.String:
+		sb.WriteString(strconv.Quote(v.String()))
+	case reflect.Func:
+		sb.WriteString("func")
+	default:
+		sb.WriteString(v.Kind().String())
+	}
+}
+func govcShow(label string, x interface{}) {
+	var sb strings.Builder
+	govcDump(&sb, reflect.ValueOf(x), 0, map[uintptr]bool{})
+	fmt.Printf("GOVC %s = %s\n", label, sb.String())
+}
+`
+
+// buildReplay returns Go test source calling the function on model-derived inputs.
+func buildReplay(o *Obligation) (string, string, bool) {
+	ex := o.Ex
+	fn := ex.fn
+	if fn == nil || fn.Pkg == nil || fn.Signature == nil {
+		return "", "no function", false
+	}
+	r := &reify{ex: ex, model: o.Model, names: map[string]string{}, ok: true, bases: map[string]string{}}
+	var args []string
+	var shows []string
+	for _, p := range fn.Params {
+		v := ex.params[p.Name()]
+		if v == nil || v.T == nil {
+			return "", "parameter without term", false
+		}
+		e := r.arg(p.Name(), v.T, p.Type())
+		an := "a_" + p.Name()
+		r.pre = append(r.pre, fmt.Sprintf("%s := %s", an, e))
+		r.pre = append(r.pre, "_ = "+an)
+		args = append(args, an)
+		shows = append(shows, fmt.Sprintf("govcShow(%q, %s)", "arg."+p.Name(), an))
+	}
+	if !r.ok {
+		return "", r.why, false
+	}
+	var call string
+	recv := fn.Signature.Recv()
+	if recv != nil {
+		call = fmt.Sprintf("%s.%s(%s)", args[0], fn.Name(), strings.Join(args[1:], ", "))
+	} else {
+		call = fmt.Sprintf("%s(%s)", fn.Name(), strings.Join(args, ", "))
+	}
+	nres := fn.Signature.Results().Len()
+	var lhs []string
+	for i := 0; i < nres; i++ {
+		lhs = append(lhs, fmt.Sprintf("r%d", i))
+	}
+	var sb strings.Builder
+	sb.WriteString("package " + fn.Pkg.Pkg.Name() + "\n\n")
+	sb.WriteString("// Replay of obligation " + o.Name + " (generated by govc; see the .json next to this file).\n\n")
+	sb.WriteString("import (\n\t\"fmt\"\n\t\"reflect\"\n\t\"sort\"\n\t\"strconv\"\n\t\"strings\"\n\t\"testing\"\n)\n")
+	sb.WriteString(dumpHelper)
+	sb.WriteString("\nfunc TestGovcReplay(t *testing.T) {\n")
+	for _, l := range r.pre {
+		sb.WriteString("\t" + l + "\n")
+	}
+	sb.WriteString("\tfunc() {\n\t\tdefer func() {\n\t\t\tif p := recover(); p != nil {\n\t\t\t\tfmt.Printf(\"GOVC panic = %T\\n\", p)\n\t\t\t}\n\t\t}()\n")
+	if nres > 0 {
+		sb.WriteString("\t\t" + strings.Join(lhs, ", ") + " := " + call + "\n")
+		for i := range lhs {
+			sb.WriteString(fmt.Sprintf("\t\tgovcShow(\"result%d\", r%d)\n", i, i))
+		}
+	} else {
+		sb.WriteString("\t\t" + call + "\n")
+	}
+	sb.WriteString("\t\tfmt.Println(\"GOVC returned\")\n\t}()\n")
+	for _, s := range shows {
+		sb.WriteString("\t" + s + "\n")
+	}
+	sb.WriteString("}\n")
+	return sb.String(), "", true
+}
+
+func runReplay(repo string, pkgRel string, src string, tag string) (string, error) {
+	dir := filepath.Join(repo, pkgRel)
+	tmp, err := os.MkdirTemp("", "govc-replay-")
+	if err != nil {
+		return "", err
+	}
+	defer os.RemoveAll(tmp)
+	tf := filepath.Join(tmp, "zz_govc_replay_test.go")
+	if err := os.WriteFile(tf, []byte(src), 0644); err != nil {
+		return "", err
+	}
+	ov := map[string]map[string]string{"Replace": {filepath.Join(dir, "zz_govc_replay_test.go"): tf}}
+	ob, _ := json.Marshal(ov)
+	ovf := filepath.Join(tmp, "ov.json")
+	os.WriteFile(ovf, ob, 0644)
+	cmd := exec.Command("go", "test", "-overlay", ovf, "-vet=off", "-v", "-count=1", "-timeout", "60s", "-run", "^TestGovcReplay$", ".")
+	cmd.Dir = dir
+	cmd.Env = append(os.Environ(), "GOFLAGS=-mod=mod", "GOPROXY=off", "GOSUMDB=off", "GOTOOLCHAIN=local")
+	out, _ := cmd.CombinedOutput()
+	var lines []string
+	for _, l := range strings.Split(string(out), "\n") {
+		if strings.HasPrefix(l, "GOVC ") {
+			lines = append(lines, l)
+		}
+	}
+	if len(lines) == 0 {
+		return "", fmt.Errorf("replay produced no output: %s", truncate(string(out), 600))
+	}
+	return strings.Join(lines, "\n"), nil
+}
+
+func referenceCommit(verifDir string) string {
+	b, err := os.ReadFile(filepath.Join(verifDir, "reference_commit"))
+	if err != nil {
+		return "HEAD"
+	}
+	return strings.TrimSpace(string(b))
+}
 
 func (r *Report) tryReplay(dir string, o *Obligation, info map[string]interface{}) (string, bool) {
-	return "", false
+	if o.Model == nil || len(o.Model) == 0 || os.Getenv("GOVC_NO_REPLAY") != "" {
+		return "", false
+	}
+	src, why, ok := buildReplay(o)
+	if !ok {
+		info["replay"] = "not attempted: " + why
+		return "", false
+	}
+	fn := o.Ex.fn
+	pkgRel := strings.TrimPrefix(strings.TrimPrefix(fn.Pkg.Pkg.Path(), r.V.rootPath), "/")
+	cur, err := runReplay(repoDir, pkgRel, src, "current")
+	if err != nil {
+		info["replay"] = "current tree: " + err.Error()
+		return "", false
+	}
+	// reference tree
+	ref := referenceCommit(r.VerifDir)
+	refDir, err := os.MkdirTemp("", "govc-ref-")
+	if err != nil {
+		return "", false
+	}
+	defer os.RemoveAll(refDir)
+	gitRepo := "/repo"
+	if out, err := exec.Command("git", "-C", gitRepo, "worktree", "add", "--detach", "--force", refDir, ref).CombinedOutput(); err != nil {
+		info["replay"] = "cannot materialise reference commit: " + truncate(string(out), 300)
+		return "", false
+	}
+	defer exec.Command("git", "-C", gitRepo, "worktree", "remove", "--force", refDir).Run()
+	refOut, err := runReplay(refDir, pkgRel, src, "reference")
+	if err != nil {
+		info["replay"] = "reference tree: " + err.Error()
+		return "", false
+	}
+	info["replay_current"] = cur
+	info["replay_reference"] = refOut
+	info["replay_reference_commit"] = ref
+	if cur == refOut {
+		info["replay"] = "the model input does not distinguish the current tree from the proved reference tree"
+		return "", false
+	}
+	base := filepath.Join(dir, sanitize(o.Name))
+	os.WriteFile(base+"_test.go.txt", []byte(src), 0644)
+	info["replay"] = "REPRODUCED: on the solver's counterexample the current tree behaves differently from the reference tree (on which this obligation is proved for all inputs)"
+	info["replay_test"] = base + "_test.go.txt"
+	b, _ := json.MarshalIndent(info, "", " ")
+	os.WriteFile(base+".json", b, 0644)
+	return base + ".json", true
 }
